@@ -38,7 +38,20 @@ func jsonRound(e Ev, marshal func() ([]byte, error), unmarshal func([]byte) (int
 		if err != nil {
 			return
 		}
-		back, err = unmarshal(b)
+		// decoded twice from the same buffer: a decoder may neither modify nor retain its input
+		keep := append([]byte{}, b...)
+		var first interface{}
+		if first, err = unmarshal(b); err != nil {
+			return
+		}
+		if back, err = unmarshal(b); err != nil {
+			return
+		}
+		f1, _ := json.Marshal(first)
+		f2, _ := json.Marshal(back)
+		if !bytes.Equal(b, keep) || !bytes.Equal(f1, f2) {
+			back = Ev{"decoder": "modified or retained its input"}
+		}
 	})
 	switch {
 	case p:
